@@ -355,14 +355,33 @@ def r17d(ctx):
                      "anywhere else a cheaper definitive candidate can be thrown away and the search ends on a non-minimum")
     q = m.need_class("IterativeTighteningSearch")
     f = m.method(q, "tighten_bounds")
-    from ..astx import inline_stmt_calls
-    flat = inline_stmt_calls(m, q, f.node)      # `self._clear()`-style helpers are judged where they are called
-    clears = [c for c in walk_no_nested(flat) if isinstance(c, ast.Call) and isinstance(c.func, ast.Attribute) and c.func.attr == "clear"
+    # the region of the rule: tighten_bounds and the methods of the class it calls (as statements or for their value), two
+    # levels deep; a clear in a helper is judged under the helper's own conditions plus those of its only call site
+    region, seen, frontier = [(f, [])], {"tighten_bounds"}, [(f, [])]
+    for _ in range(2):
+        nxt = []
+        for g, gfacts in frontier:
+            sites = {}
+            for c in walk_no_nested(g.node):
+                if isinstance(c, ast.Call) and self_attr(c.func):
+                    sites.setdefault(self_attr(c.func), []).append(c)
+            for hname, cs in sorted(sites.items()):
+                h = m.method(q, hname)
+                if h is None or hname in seen:
+                    continue
+                seen.add(hname)
+                hf = gfacts + [ast.unparse(t).replace(" ", "") for t, pol in flatten_conditions(dominating_conditions(cs[0])) if pol] \
+                    if len(cs) == 1 else []
+                region.append((h, hf))
+                nxt.append((h, hf))
+        frontier = nxt
+    clears = [(c, gf) for g, gf in region for c in walk_no_nested(g.node)
+              if isinstance(c, ast.Call) and isinstance(c.func, ast.Attribute) and c.func.attr == "clear"
               and self_attr(c.func.value) in ("_tightened", "_untightened")]
-    ctx.floor("R17d", len(clears), 4, "heap clears in IterativeTighteningSearch.tighten_bounds")
-    for c in clears:
+    ctx.floor("R17d", len(clears), 4, "heap clears in IterativeTighteningSearch.tighten_bounds and its helpers")
+    for c, gf in clears:
         heap = self_attr(c.func.value)
-        facts = [ast.unparse(t).replace(" ", "") for t, pol in flatten_conditions(dominating_conditions(c)) if pol]
+        facts = gf + [ast.unparse(t).replace(" ", "") for t, pol in flatten_conditions(dominating_conditions(c)) if pol]
         why = None
         if "self.goal_test()" in facts:
             why = "under goal_test()"
